@@ -186,4 +186,7 @@ def plan(tier, seed, rng):
         if not only_permute:
             for ch in chunks(tc, 125 if tier == "quick" else 160):
                 units.append(Unit("C14", cfg, ch, ["props/c14.h"], max_success=12 if tier == "quick" else 20, poison=1 << 20))
+    if tier == "thorough":
+        from vf.core import thin_units
+        units = thin_units(units, seed, 0.35, 0.12)
     return units
